@@ -251,6 +251,61 @@ fn greeting_bytes() -> impl Strategy<Value = B> {
     ]
 }
 
+#[derive(Debug, Clone, Serialize, Deserialize)]
+pub struct ManyNames {
+    pub lines: usize,
+    pub flavour: Flavour,
+    /// 0: as much as the receive buffer takes per read
+    pub chunk: usize,
+}
+
+fn check_many_names(case: &ManyNames) -> CaseResult {
+    let mut r = CaseResult::new();
+    r.nontrivial();
+    let mut stream = Vec::with_capacity(case.lines * 12 + 16);
+    let c = |d: usize| (b'a' + (d % 26) as u8) as char;
+    for i in 0..case.lines {
+        stream.extend_from_slice(format!("k{}{}{}{}{}: {}\n", c(i / 456_976), c(i / 17_576), c(i / 676), c(i / 26), c(i), i % 10).as_bytes());
+    }
+    stream.extend_from_slice(b"OK\nz: y\nOK\n");
+    let seg = if case.chunk == 0 { Seg::Whole } else { Seg::Chunk(case.chunk) };
+    // the receive runs on a helper thread: if it does not come back the run is inconclusive
+    let (tx, rx) = std::sync::mpsc::channel();
+    let (flavour, lines) = (case.flavour, case.lines);
+    std::thread::spawn(move || {
+        let obs = crate::core::catch(|| run(flavour, GREETING, &stream, &seg, 0));
+        let _ = tx.send(obs);
+    });
+    let obs = match rx.recv_timeout(std::time::Duration::from_secs(240)) {
+        Ok(Ok(o)) => o,
+        Ok(Err(p)) => {
+            r.fail(format!("response with {lines} distinct field names, {flavour:?}: panic {p}"));
+            return r;
+        }
+        Err(_) => {
+            println!("WATCHDOG: receive of a response with {lines} distinct field names ({flavour:?}, chunk {}) did not return within 240 s wall clock; inconclusive", case.chunk);
+            std::process::exit(2);
+        }
+    };
+    let ok = obs.responses.len() == 2
+        && obs.responses[0].frames.len() == 1
+        && obs.responses[0].frames[0].fields.len() == lines
+        && obs.responses[0].frames[0].fields.last().is_some_and(|(k, _)| k.len() == 6)
+        && obs.responses[1].frames.len() == 1
+        && obs.responses[1].frames[0].fields == vec![("z".to_string(), "y".to_string())]
+        && obs.terminal == Terminal::CleanEof;
+    if !ok {
+        r.fail(format!(
+            "response with {lines} distinct field names + a small one, {flavour:?}/{:?}: {} response(s), first has {} field(s), terminal {:?}",
+            case.chunk,
+            obs.responses.len(),
+            obs.responses.first().and_then(|x| x.frames.first()).map_or(0, |f| f.fields.len()),
+            obs.terminal
+        ));
+    }
+    r
+}
+
 pub fn property(_tier: Tier) -> Property {
     Property {
         id: "C09",
@@ -273,6 +328,17 @@ pub fn property(_tier: Tier) -> Property {
                         .boxed()
                 }),
                 check: Box::new(check_connect),
+            }),
+            Box::new(crate::core::ExhaustivePart {
+                name: "many_names",
+                rule: "one response of N lines each with a field name of its own (N in {70000, 1100000}; thorough + 2200000, 4300000: past 2^16, 2^20, 2^21, 2^22 names alive in one response), then a second small response, delivered whole and in 65535-byte reads to the blocking and the async connection: both responses must come back (N fields, in order) and then the clean end, within the read bound. A receive that does not return within 240 s of wall clock (the unchanged code needs 1-4 s) ends the run as inconclusive (exit 2), never as a violation. non-trivial = every case",
+                space: Box::new(|t: Tier| {
+                    let sizes = if t == Tier::Thorough { vec![70_000usize, 1_100_000, 2_200_000, 4_300_000] } else { vec![70_000usize, 1_100_000] };
+                    Box::new(sizes.into_iter().flat_map(|lines| {
+                        [Flavour::Blocking, Flavour::Async].into_iter().flat_map(move |flavour| [0usize, 65_535].into_iter().map(move |chunk| ManyNames { lines, flavour, chunk }))
+                    }))
+                }),
+                check: Box::new(check_many_names),
             }),
             crate::fuzzops::corpus_part("fuzz_corpus", "fz_stream", "C09", crate::fuzzops::stream_target),
         ],
